@@ -378,14 +378,14 @@ def parentsOf (labels : List String) (s : List Nat) : Option (List (Option Strin
     | [] => some []
     | _ :: ps => (ps.mapM fun (p : Option Nat) => p.bind fun k => labels[k]?).map fun l => none :: l.map some
 
-/-- `(is_float(lab) and not parents[j].lower() == 'pow') or (lab.startswith('a') and is_float(lab[1:]))`;
-`none` = AttributeError (`None.lower()` on the root). -/
-def replaceMask (lab : String) (parent : Option String) : Option Bool :=
+/-- `(is_float(lab) and not (parents[j] is not None and parents[j].lower() == 'pow')) or
+(lab.startswith('a') and is_float(lab[1:]))` — the root (`parents[0] is None`) counts as "parent is not pow". -/
+def replaceMask (lab : String) (parent : Option String) : Bool :=
   if isFloatLabel lab then
-    match parent with
-    | none => none
-    | some p => some (!(lower p == noReplaceParent) || isParamLabel lab)
-  else some (isParamLabel lab)
+    !(match parent with
+      | none => false
+      | some p => lower p == noReplaceParent) || isParamLabel lab
+  else isParamLabel lab
 
 /-- The label list handed to `single_function` / `tree_to_aifeyn`. -/
 def relabel (B : Basis) (replaceFloats : Bool) (maxvar : Nat) (raw : List String) : Option (List String) :=
@@ -400,9 +400,7 @@ def relabel (B : Basis) (replaceFloats : Bool) (maxvar : Nat) (raw : List String
     | none => none
     | some parents =>
       if replaceFloats then
-        match (labels.zip parents).mapM (fun lp => replaceMask lp.1 lp.2) with
-        | none => none
-        | some mask2 => some (renumber 0 (labels.zip mask2))
+        some (renumber 0 (labels.zip ((labels.zip parents).map fun lp => replaceMask lp.1 lp.2)))
       else some labels
 
 /-! ### semantics -/
